@@ -188,6 +188,9 @@ def _gen_file(rnd):
         x1 = 100.0; lines.append("# x1: 100")
     lines.append(sep.join(header))
     for i, r in enumerate(rows):
+        # comment lines anywhere in the file (also an empty comment) are not data
+        if rnd.random() < 0.15:
+            lines.append(rnd.choice(["# checked by hand", "#", "# ", "#comment without a space", "# obs fcst 1 2 3"]))
         lines.append(sep.join(r))
     text = "\n".join(lines) + "\n"
     exp = dict(cells=cells, unix=sorted(set(k[0] for k in cells)), leads=sorted(set(k[1] for k in cells)), ids=sorted(set(k[2] for k in cells)),
